@@ -24,15 +24,15 @@ META = {
     "Space A (lexer-centric): 4 contexts x every fault position in 2-6 line skeletons x 4 line-break forms x "
     "trim_blocks/lstrip_blocks x 16 whitespace-control settings of the neighbouring and the faulty tag x 13 preceding "
     "multi-line constructs (comment, raw, string literal, expression, tag; own line or glued to the fault line) x 7 "
-    "fault forms (1 863 680 cases).  Space B (compiler/debug-centric): 26 nesting contexts (blocks, overridden blocks, super(), macros, "
-    "call blocks, loops, conditionals, set/filter blocks, includes, imports, parents, two-level nestings) x positions "
-    "x 2 line-break forms x 2 flag settings x 4 whitespace settings x 3 preceding constructs x 10 fault forms (249 600 cases).  "
+    "fault forms (1 863 680 cases).  Space B (compiler/debug-centric): 30 nesting contexts (blocks, overridden blocks, super(), macros, "
+    "call blocks, loops, filtered loops, conditionals, set/filter blocks, includes, imports, parents, two-level nestings) x positions "
+    "x 2 line-break forms x 4 flag settings (trim+lstrip, enable_async) x 4 whitespace settings x 3 preceding constructs x 10 fault forms (576 000 cases).  "
     "Runtime faults: the innermost traceback frame whose code filename is a template filename must be (file of the "
     "fault, line of the fault) and the exception must be the very object raised.  Syntax faults: TemplateSyntaxError "
     "lineno/name/filename and the synthetic traceback frame must be that position.",
     "note": "Templates come from a FunctionLoader that supplies a distinct file name per template.  Faults are single-line "
     "constructs (plus two syntax faults whose offending token is on the line after the tag start).  Bounds: quick "
-    "skeletons of 2-3 lines, 2 contexts / 2 flag settings / 8 whitespace settings / 4 fault forms in space A (33 280 + 62 400 "
+    "skeletons of 2-3 lines, 2 contexts / 2 flag settings / 8 whitespace settings / 4 fault forms in space A (33 280 + 144 000 "
     "cases), thorough 2-6 lines; not a full cross product of all dimensions (two sub-spaces, see text).",
     "design_ref": "DESIGN.md §4 C35",
 }
@@ -204,6 +204,13 @@ CONTEXTS = {
     "import-top": _ctx_import_top,
     "block-for-if": lambda body, O, C: ({"main": ["{% block b %}", "{% for i in [1] %}", "{% if true " + O + "%}"] + body
                                          + ["{%" + C + " endif %}", "{% endfor %}", "{% endblock %}", TAIL]}, "main", "main", 3),
+    # filtered loops: in async mode the loop runs inside try/finally (the filter generator is closed on the way out)
+    "for-filter": _wrap("{% for i in [1, 2] if i {O}%}", "{%{C} endfor %}", [TAIL]),
+    "for-filter-in-block": lambda body, O, C: ({"main": [FILL, "{% block b %}", "{% for i in [1, 2] if i " + O + "%}"] + body
+                                                + ["{%" + C + " endfor %}", TAIL, "{% endblock %}", TAIL]}, "main", "main", 3),
+    "for-filter-in-macro": lambda body, O, C: ({"main": ["{% macro m() %}", "{% for i in [1, 2] if i " + O + "%}"] + body
+                                                + ["{%" + C + " endfor %}", TAIL, "{% endmacro %}", "{{ m() }}"]}, "main", "main", 2),
+    "for-filter-recursive": _wrap("{% for i in [1, 2] if i recursive {O}%}", "{%{C} endfor %}", [TAIL]),
     "macro-for": lambda body, O, C: ({"main": ["{% macro m() %}{% for i in [1] " + O + "%}"] + body
                                       + ["{%" + C + " endfor %}{% endmacro %}", "{{ m() }}"]}, "main", "main", 1),
 }
@@ -249,6 +256,9 @@ def build(case):
         kw["trim_blocks"] = True
     if "l" in flags:
         kw["lstrip_blocks"] = True
+    if "a" in flags:
+        # Template.render of an async environment drives render_async through asyncio.run
+        kw["enable_async"] = True
     return srcs, entry, fname, off + at + foff + 1, kind, kw
 
 
@@ -383,7 +393,7 @@ def space(quick):
     else:
         dims_a = [CONTEXTS_A, pos, list(BREAKS), ["", "t", "l", "tl"], ws16, list(PRE),
                   ["out", "mixed", "syn-expr", "syn-tag", "syn-lex", "syn-expr-split", "syn-tag-split"]]
-    dims_b = [list(CONTEXTS), pos, ["lf", "mixed"], ["", "tl"],
+    dims_b = [list(CONTEXTS), pos, ["lf", "mixed"], ["", "tl", "a", "atl"],
               [("", "", "", ""), ("-", "", "", ""), ("", "-", "", ""), ("-", "-", "-", "-")], ["none", "comment", "expr"],
               ["out", "mixed", "set", "if", "for", "filter", "syn-expr", "syn-tag", "syn-lex", "syn-tag-split"]]
     shards = []
@@ -409,7 +419,7 @@ def run(ctx: core.Ctx):
         "the expected position is the index of the fault's line in the list of lines the template was joined from (line breaks: \\n, \\r\\n, \\r)",
         "templates are served by a FunctionLoader that gives each template its own file name; 'template frame' = traceback frame whose code filename is one of these names",
         "runtime faults are single-line constructs whose tag starts on the line of the raising call; two syntax fault forms put the offending token on the line after the tag start and expect that line",
-        "space A uses 4 contexts with all whitespace/flag/line-break/preceding-construct combinations; space B uses all contexts with a reduced set of the other dimensions",
+        "space A uses 4 contexts with all whitespace/flag/line-break/preceding-construct combinations (synchronous environments); space B uses all contexts with a reduced set of the other dimensions, each also with enable_async=True (Template.render drives render_async through asyncio.run)",
     ]
     shards, na, nb = space(ctx.quick)
     ctx.cov["bounds"] = {"skeleton_lines": [2, 3 if ctx.quick else 6], "cases_space_A": na, "cases_space_B": nb,
